@@ -1511,13 +1511,14 @@ def extra_coverage(results):
 RULE = (
     "corpus (F9 inputs) + small scope (every built-in model on a grid of 7 abscissas x parameter corners: L_p, S_t "
     "x{0.5,1,1.5}, L_c in {0.3,2.7,16,30}; every pairwise sum, the offset of every model, the inverse of every distance "
-    "model, nested examples) + seeded random over the property's box (parameters +-50 % of the defaults, twist "
+    "model, nested examples) + raw cubics (a, b, c) built from chosen roots (three real roots = trigonometric branch, "
+    "one real root = Cardano branch; scale 0.1-1000; all three root indices) + seeded random over the property's box (parameters +-50 % of the defaults, twist "
     "parameters +-10 %, L_c 0.3-30 um log-uniform, forces 0.05 pN .. 80 % of the validity limit, distances obtained "
     "from such forces; random compositions of depth <= 3 with up to 6 leaves; fit layouts with 1-2 models, 1-3 data "
     "sets each, 1-3 points, parameters renamed per data set / shared across data sets / merged inside a data set / "
     "pinned to numbers) + an out-of-domain stream (zero, negative, NaN, infinite abscissas and parameters). "
     "Non-trivial: base = a derivative was returned; tree = a genuine composition; fit = more than one data set or a "
-    "transformation."
+    "transformation; raw cubic = always."
 )
 TRUSTED = [
     "RealLike formulas are executed at Float and proved at R; rounding is not modelled (comparison: rel 1e-9 for closed "
